@@ -199,6 +199,9 @@ def c16(res: CheckResult) -> None:
               F.with_bare_override(F.fam_order(res.tier, rng), rng, 500 if res.tier == "quick" else 4000), ic)
     call_unit(res, "coroutine functions mixing plain and coroutine-function conditions",
               list(F.fam_order_mixed_async(res.tier, rng)), ic)
+    call_unit(res, "precondition groups whose conditions configure their errors differently (explicit error in an earlier "
+                   "group, default in the last, and vice versa)", list(F.fam_order_forms(res.tier, rng)), ic,
+              require_outcomes=["Violation", "ErrInst", "ErrClass"])
     def_unit(res, "invariants accumulated along hierarchies incl. diamonds: the first falsy one in the order base before "
                   "derived is blamed", list(DF.fam_inv_lists(res.tier, rng)), ic, verdicts=True, rng=rng)
     def_unit(res, "overrides carrying foreign functools.wraps decorators in hierarchies: inherited groups first, the error "
